@@ -132,7 +132,7 @@ func c04Sessions(c *Ctx) {
 		conn.HandleBG("NOTICE", client.HandlerFunc(func(_ *client.Conn, l *client.Line) { bgSeen <- l.Text() }))
 		type reg struct {
 			id, name string
-			bg      bool
+			bg       bool
 		}
 		var regs []reg
 		nextID := 0
